@@ -133,19 +133,32 @@ ZeroKeyAt(j) ==
       acct == [mnemonic |-> Opt("env", Mn2), password |-> NoOpt, index |-> Opt(IF j % 2 = 0 THEN "flag" ELSE "env", ToString(i)), path |-> NoOpt]
   IN  CItem("zero_key", Form(<<2, 3, 1, 8>>[1 + ((j - 1) % 4)], acct, "none", <<76, j>>))
 
+\* ---- G: standard input delivered in several pieces (short reads); the bytes are what counts ----------------
+ChunkPlans == << <<6>>, <<1, 1, 1>>, <<4095, 1>>, <<4096, 7>>, <<100, 5000>>, <<8191, 2>> >>
+NChunked == Len(ChunkPlans) * 4
+ChunkedAt(j) ==
+  LET plan == ChunkPlans[1 + ((j - 1) % Len(ChunkPlans))]
+      f    == <<13, 9, 4, 10>>[1 + ((j - 1) \div Len(ChunkPlans))]       \* hash data, hash message, sign message, hash transaction
+      size == 9000 + j
+      c0   == Form(f, PlainAcct(Mn2), "stdin", <<77, j>>)
+      c    == IF f = 10 THEN c0 ELSE [c0 EXCEPT !.inp = [hex |-> BytesToHex([i \in 1..size |-> (i * 17 + j) % 256])]]
+  IN  [i |-> 0, op |-> "cli", fam |-> "chunked_stdin", in |-> CliIn(c) @@ [stdin_chunks |-> plan]]
+
 O1 == NSample
 O2 == O1 + NLattice
 O3 == O2 + 3 * NSessions
 O4 == O3 + NBad
 O5 == O4 + NBig
-Count == O5 + NZeroKey
+O6 == O5 + NZeroKey
+Count == O6 + NChunked
 ItemAt(g) ==
   IF g <= O1 THEN SampleAt(g)
   ELSE IF g <= O2 THEN LatticeAt(g - O1)
   ELSE IF g <= O3 THEN SessionAt(g - O2)
   ELSE IF g <= O4 THEN BadAt(g - O3)
   ELSE IF g <= O5 THEN BigAt(g - O4)
-  ELSE ZeroKeyAt(g - O5)
+  ELSE IF g <= O6 THEN ZeroKeyAt(g - O5)
+  ELSE ChunkedAt(g - O6)
 VARIABLE n
 INSTANCE GenBase
 =============================================================================
